@@ -77,9 +77,9 @@ class Ctx:
     def known_hit(self, finding, what):
         self.known_hits.append((finding, what))
 
-    def match_known(self, classifier):
+    def match_known(self, classifier, any_property=False):
         """classifier(finding_dict) -> bool; returns the first open finding whose class matches."""
-        for k in self.known:
+        for k in (load_known() if any_property else self.known):
             if k.get("status") == "open" and classifier(k):
                 return k
         return None
